@@ -414,12 +414,31 @@ def replay_metamorphic(inputs):
                     same(c1, c2, 'optimal path cost changed under the voxel shift', tol=1e-9)
         except ImportError:
             pass
+    # (f) the same with samples exactly on voxel faces and on the cell faces: a dyadic grid (8 voxels per axis, coordinates k/16, shifts j/8) makes
+    #     every coordinate, edge and shift exact in binary floating point, so the roll must hold exactly
+    from pymatgen.core import Element
+    cub = np.eye(3) * 8.0
+    xs = rng.integers(0, 16, size=(6, 3, 3)) / 16.0
+    xs[0, 0] = [0.0, 0.125, 0.875]
+    xs[1, 0] = [0.5, 0.0, 0.0]
+    tq = Trajectory(species=[Element('Li')] * 3, coords=xs, lattice=cub, time_step=1e-15, metadata={'temperature': 600.0})
+    v1 = np.asarray(tq.to_volume(resolution=1.0).data)
+    if v1.shape == (8, 8, 8):
+        kq = rng.integers(0, 8, size=3)
+        tq2 = Trajectory(species=[Element('Li')] * 3, coords=np.mod(xs + kq / 8.0, 1), lattice=cub, time_step=1e-15, metadata={'temperature': 600.0})
+        v2 = np.asarray(tq2.to_volume(resolution=1.0).data)
+        if not np.array_equal(np.roll(v1, tuple(int(x) for x in kq), axis=(0, 1, 2)), v2):
+            bad.append(f'density volume with samples exactly on voxel / cell faces is not rolled by the voxel shift {kq.tolist()}')
+        if v1.sum() != xs.shape[0] * xs.shape[1]:
+            bad.append('density volume with face samples does not count every sample once')
+    else:
+        bad.append(f'8 A cubic cell at resolution 1 A gives grid {v1.shape}, expected (8, 8, 8)')
     return {'reproduced': bool(bad), 'detail': f'seed={seed} lattice={np.round(lat.parameters, 2).tolist()}: ' + '; '.join(bad[:4])}
 
 
 def bounded_metamorphic(tier, seed):
     import numpy as np
-    n = 10 if tier == 'quick' else 120
+    n = 10 if tier == 'quick' else 400
     st = Stand('C07.metamorphic', f'{n} synthetic hopping systems (3 Li + 2 O atoms, 4 labelled sites, 40 frames, all lattice families incl. triclinic) each analysed in the original and four '
                'transformed representations (random proper rotation, random fractional translation in [-1,2)^3 wrapped through the faces, random permutation of the diffusing atoms, '
                'random permutation of the sites) plus a whole-voxel shift for the grids', 'seeded random; results compared with relative tolerance 1e-7 (exact for integer-valued results); degenerate systems skipped')
